@@ -238,7 +238,16 @@ func (pipeline *Pipeline) LoadSchemas(ctx context.Context) (ast.Schemas, error) 
 		return nil, err
 	}
 
-	return commonPasses.Process(allSchemas)
+	allSchemas, err = commonPasses.Process(allSchemas)
+	if err != nil {
+		return nil, err
+	}
+
+	if cycle := allSchemas.AliasCycle(); cycle != "" {
+		return nil, fmt.Errorf("objects refer to each other without ever reaching a type: %s", cycle)
+	}
+
+	return allSchemas, nil
 }
 
 func (pipeline *Pipeline) OutputLanguages() (languages.Languages, error) {
